@@ -1,7 +1,8 @@
 (* C16 — Exception modifiers only ever switch cosmetic options off.
    Only statements here; every proof is [exact <lemma>]. *)
 From Coq Require Import NArith.
-From UF Require Import Model.Options Proofs.C16Proofs.
+From Coq Require Import List.
+From UF Require Import Model.Options Model.NetRule Model.Result Proofs.C06Proofs Proofs.C16Proofs Proofs.C16Result.
 Local Open Scope N_scope.
 
 (* For EVERY option word (all 2^9 modifier subsets and every other word): the option of an
@@ -41,3 +42,32 @@ Print Assumptions C16_monotone.
 Theorem C16_text_subsets : forall mask, (mask < 512)%nat -> subset_ok mask = true.
 Proof. exact subsets_text_level. Qed.
 Print Assumptions C16_text_subsets.
+
+(* The same on the result object NewMatchingResult builds from the rules matching the request (rs) and the rules
+   matching the page (src): the option never leaves All; an exception verdict gives All minus the union of what its
+   modifiers disable; any other outcome gives All. *)
+Theorem C16_result_only_shrinks : forall rs src, subset (result_cosmetic_option (new_matching_result rs src)) CosAll.
+Proof. exact result_only_shrinks. Qed.
+Print Assumptions C16_result_only_shrinks.
+Theorem C16_result_exception : forall rs src w, mr_basic (new_matching_result rs src) = Some w -> nr_whitelist w = true ->
+  result_cosmetic_option (new_matching_result rs src) = N.ldiff CosAll (disabled_by (nr_enabled w)).
+Proof. exact result_exception. Qed.
+Print Assumptions C16_result_exception.
+Theorem C16_result_not_exception : forall rs src,
+  (forall w, mr_basic (new_matching_result rs src) = Some w -> nr_whitelist w = false) ->
+  result_cosmetic_option (new_matching_result rs src) = CosAll.
+Proof. exact result_not_exception. Qed.
+Print Assumptions C16_result_not_exception.
+(* a page under a $urlblock exception (whichever of its document-level exceptions carries the flag, wherever it
+   stands): blocking rules do not compete, so if anything competes the option is that of an exception matching
+   the request; with a single such exception, its own *)
+Theorem C16_result_under_urlblock : forall rs src x, basic_allowed src = false -> In x (candidates rs src) ->
+  exists w, mr_basic (new_matching_result rs src) = Some w /\ In w (eff rs) /\ nr_whitelist w = true /\
+            result_cosmetic_option (new_matching_result rs src) = N.ldiff CosAll (disabled_by (nr_enabled w)).
+Proof. exact result_under_urlblock. Qed.
+Print Assumptions C16_result_under_urlblock.
+Theorem C16_result_single_exception : forall rs src e, basic_allowed src = false ->
+  In e (candidates rs src) -> (forall x, In x (candidates rs src) -> x = e) ->
+  result_cosmetic_option (new_matching_result rs src) = N.ldiff CosAll (disabled_by (nr_enabled e)).
+Proof. exact result_single_exception. Qed.
+Print Assumptions C16_result_single_exception.
